@@ -14,7 +14,7 @@ let iz = int_of_z
 let ints_of_csv s = List.filter_map (fun t -> match int_of_string_opt t with Some i when i >= 1 && i <= 250 -> Some i | _ -> None) (split_on ',' s)
 
 let is_event u =
-  u = "q" || u = "a" || u = "s" || u = "r" || u = "i" || u = "x"
+  u = "q" || u = "a" || u = "s" || u = "r" || u = "i" || u = "x" || u = "c"
   || (String.length u >= 2 && u.[0] = 'w' && u.[1] >= '0' && u.[1] <= '9')
   || (String.length u >= 1 && u.[0] = 'e')
 
@@ -68,6 +68,7 @@ let () =
        let rot = get "rot" = 1 and tries = get "tries" and chance = get "ch" and delay = get "dl" in
        let ch = ref (init_chan (List.map zi sv) rot (zi tries) (zi chance) (zi delay) (zi 100000, zi 0)) in
        let mon = ref (Some (mon_init (List.map zi sv) rot)) in
+       let bmon = ref (Some (bmon_init (List.map zi sv) (zi tries))) in
        let sections l = match List.map String.trim (split_on '|' l) with
          | [_; r; t] -> (List.filter (fun s -> s <> "") (split_on ' ' r), t)
          | _ -> ([], "?") in
@@ -147,6 +148,7 @@ let () =
                  | Some (c, o) -> Some (c, o, [])
                  | None -> (match in_order labels with Some (c, o) -> Some (c, o, []) | None -> None))
               | _ -> None)
+           | "c" -> (match apply !ch EvCancel with Some (c, o) -> Some (c, o, []) | None -> None)
            | _ when u.[0] = 'w' ->
              if !ch.ch_inflight <> [] then Some (!ch, [], ["skip"]) else
              (match apply !ch (EvAdvance (zi (int_of_string (String.sub u 1 (String.length u - 1))))) with
@@ -205,6 +207,20 @@ let () =
                   (Printf.sprintf "event %s: %s rejected; failures by callbacks [%s]" u (render_obs ob)
                      (String.concat "," (List.map (fun s -> Printf.sprintf "%d:%d:%s" (iz s.sv_addr) (iz s.sv_idx) (string_of_z s.sv_fail)) m.m_servers)));
                 mon := None)) iobs;
+         (* second monitor: an attempt that is due is made *)
+         List.iter (fun ob ->
+           match !bmon with
+           | None -> ()
+           | Some b ->
+             (match bmon_step b ob with
+              | Some b' -> bmon := Some b'
+              | None ->
+                add_fail "attempt-not-sent"
+                  (Printf.sprintf "event %s: %s although only %d transmission(s) were made for it and the budget is %d server(s) x %d tries"
+                     u (render_obs ob)
+                     (match ob with ODone (l, _) -> List.length (List.filter (fun x -> x = l) b.b_txs) | _ -> 0)
+                     (int_of_nat b.b_nsrv) (iz b.b_tries));
+                bmon := None)) iobs;
          (* the implementation's table against the callback-derived counts, and its order *)
          let it = parse_table table in
          (match !mon with
